@@ -260,7 +260,7 @@ def unhexs(t):
 
 def run_driver(exe, args, script, timeout=600, env=None):
     e = dict(os.environ)
-    e["ASAN_OPTIONS"] = "detect_leaks=0:abort_on_error=0"
+    e["ASAN_OPTIONS"] = "detect_leaks=0:abort_on_error=0:allocator_may_return_null=1"
     e["UBSAN_OPTIONS"] = "print_stacktrace=1"
     if env:
         e.update(env)
